@@ -638,7 +638,16 @@ def run(ctx):
     except Exception as e:
         ctx.broken("gen:C02_Layout", "layout translator failed closed: %s" % e)
         return
-    ctx.coq_obligations("Properties_C02")     # a failing layout obligation also shows up as a mark/oracle disagreement in inner()
+    okc = ctx.coq_obligations("Properties_C02")     # a failing layout obligation also shows up as a mark/oracle disagreement in inner()
+    if okc and ctx.thorough:
+        coqdir = os.path.join(HERE, "..", "coq")
+        r = subprocess.run("timeout 900 coqchk -silent -o -Q . ChibiV ChibiV.Properties_C02", shell=True, cwd=coqdir, capture_output=True, text=True)
+        txt = r.stdout + r.stderr
+        ctx.checker_cmds.append("cd coq && coqchk -silent -o -Q . ChibiV ChibiV.Properties_C02")
+        if r.returncode != 0 or "Axioms: <none>" not in txt:
+            ctx.broken("coqchk:Properties_C02", "coqchk does not accept the compiled closure: " + txt[-600:])
+        else:
+            ctx.note("coqchk re-checked the .vo closure of Properties_C02: axioms <none>, no type-in-type, no assumed positivity/guard")
     exe = ctx.extract("C02")
     if exe is None:
         return
